@@ -64,6 +64,8 @@ def gen_world(rng, profile):
     g = WGen(rng, dict(profile, big=0.0, soft=profile.get("soft", 0.08), enum=0.0))
     r = rng
     classes = {}
+    # some trees are forced to hold a list of objects inside a sub-object of the root that may itself be non-random there
+    force_sub = r.random() < profile.get("sublist", 0.15)
     # leaf
     classes["L"] = {"base": None, "fields": [g.decl("a%d" % i, 0) for i in range(r.randint(2, 3))], "subs": [], "blocks": [],
                     "pre": r.random() < 0.7, "post": r.random() < 0.7}
@@ -99,10 +101,12 @@ def gen_world(rng, profile):
         # a block that carries the name of a block of the sub-objects: toggles by name must stay with their own object
         m["blocks"][0]["name"] = "c0"
     root = "M"
-    if r.random() < profile.get("deep", 0.4):
+    if force_sub or r.random() < profile.get("deep", 0.4):
         t = {"base": None, "fields": [g.decl("t0", 0)],
              "subs": [{"name": "u%d" % i, "cls": r.choice(["M"] + leafs), "rand": r.random() < 0.75} for i in range(r.randint(1, 2))],
              "blocks": [], "pre": r.random() < 0.6, "post": r.random() < 0.6}
+        if force_sub:
+            t["subs"][0].update({"cls": "M", "rand": r.random() < 0.5})
         classes["T"] = t
         tp = rel_scalars(scn, "T")
         t["blocks"] = [{"name": r.choice(["q0", "q0", "c0", "k0"]), "stmts": g.pstmts(tp, 1, 2)}]
@@ -110,8 +114,8 @@ def gen_world(rng, profile):
     scn["root"] = root
     # a list of objects in the mid or top class: elements are reached by index, take the list's randomness, carry their
     # class's blocks and callbacks
-    if r.random() < profile.get("olists", 0.35):
-        host = classes[r.choice(["M", root])]
+    if force_sub or r.random() < profile.get("olists", 0.35):
+        host = classes["M" if force_sub else r.choice(["M", root])]
         host["olists"] = [{"name": "ol0", "cls": r.choice(leafs), "n": r.randint(1, 2), "rand": r.random() < 0.75}]
         if r.random() < 0.3:
             # a list of random size: the user puts the objects in, the size is solved (at most the number of objects)
@@ -120,7 +124,7 @@ def gen_world(rng, profile):
         host["blocks"].append({"name": "zz0", "stmts": g.pstmts([x for x in hp if "ol0" in x[0]] + hp[:2], 1, 2)})
         ol = host["olists"][0]
         ef = [f for f in W.members(scn, ol["cls"]) if f[1] == "scalar" and not f[2].get("enums")]
-        if r.random() < 0.6 and ef and hp:
+        if (force_sub or r.random() < 0.6) and ef and hp:
             # foreach over the list of objects: element fields through the iterator and/or by index
             use_it = r.random() < 0.6
             use_idx = (not use_it) or r.random() < 0.5
@@ -231,6 +235,14 @@ def gen_world(rng, profile):
             for fl in fixed_lists:
                 if r.random() < 0.7:
                     ops.append({"op": "relist", "path": fl, "inst": 0})
+    # a call on the whole tree, the list of a sub-object refilled, then a call on that sub-object alone (which the first call
+    # may have reached as a non-random member): it is solved over the list it holds then
+    sub_lists = [fl for fl in fixed_lists if len(fl) > 1 and any(list(p_) == fl[:-1] for p_, _ in opaths)]
+    if sub_lists and r.random() < (0.9 if force_sub else 0.6):
+        fl = r.choice(sub_lists)
+        ops.append({"op": "randomize", "target": [], "inline": None, "seed": r.randrange(1 << 30), "inst": 0})
+        ops.append({"op": "relist", "path": fl, "inst": 0})
+        ops.append({"op": "randomize", "target": fl[:-1], "inline": None, "seed": r.randrange(1 << 30), "inst": 0})
     for i in range(ninst):
         ops.append({"op": "randomize", "target": [], "inline": None, "seed": r.randrange(1 << 30), "inst": i})
     scn["ops"] = ops
